@@ -61,6 +61,11 @@ C = {
    "clock, map-order decisions, network interleaving); the final CSV is compared with an independent evaluator of the abstract query (where -> set -> group -> aggregate -> order -> limit), "
    "tolerating only float rounding, last/len choice and ties.",
    "deterministic simulation: partition x interval-history x merge-order search, independent reference evaluator"),
+ "C10": ("exploration", "5 C10",
+   "Seeded generation of hostile byte strings (command words x options x arguments, envelope mutations, ~60 malformed queries with token mutations, regex garbage, random bytes) written "
+   "in arbitrary chunks by 1-3 authenticated attacker sessions while a paced victim session runs on the same real dserver; a panic reaching the top of any server goroutine "
+   "(= process crash) is caught and reported with its stack; the victim must complete; offending sessions must get a message or be closed within 30 simulated seconds.",
+   "deterministic simulation: multi-session hostile-input generation with stream chunking, panic capture at goroutine tops, victim-liveness oracle"),
 }
 
 checks = []
